@@ -42,6 +42,7 @@ def run(ctx: core.Ctx) -> None:
     base.run_slice(ctx, 'sim-25', slice_='simx', kinds=['container', 'model', 'linker'], budget=25, maxobjs=6, shardat=0, extras=True,
                    expect_ops=base.C11_OPS, variants=VARIANTS, identity=True, simulate=160 if quick else 2400)
     base.sample_histories(ctx, slice_='copy', kinds=['model'], budget=3, extras=True, maxobjs=6)
+    base.container_traces(ctx)
     ctx.exhaustive = False
     ctx.extra['exhaustive_slices'] = {'K-copy': '2 mutations + one copy/sibling at every point: container, model, linker' + ('' if quick else '; 3 mutations: container, model'),
                                       'K-copy-nested': '2 mutations + copy, linker whose second submodel is itself a linker',
